@@ -136,6 +136,18 @@ impl Snapshot {
     pub fn normalized(&self) -> Snapshot {
         let mut s = self.clone();
         for t in s.tables.iter_mut() {
+            // The "valid" (0x100) and "non-binary" (0x400) bits of a column's
+            // type word are not covered by any property (the library's own
+            // comments call them speculative): ignore them.
+            if t.name == "_Columns" {
+                if let Ok(rows) = t.rows.as_mut() {
+                    for r in rows.iter_mut() {
+                        if let Some(Val::Int(n)) = r.get_mut(3) {
+                            *n &= !0x500;
+                        }
+                    }
+                }
+            }
             if let Ok(rows) = t.rows.as_mut() {
                 for r in rows.iter_mut() {
                     for c in r.iter_mut() {
